@@ -283,6 +283,42 @@ def correspond_interval(run, tier, rng):
     run.extra["max_enclosure_width"] = float(max(hi - lo for lo, hi in enc.values()))
 
 
+def reuse_probe(run, tier, rng):
+    """The weights are a function of the stored history only: one manager instance that has already computed weights for
+    other histories (replaced through update_from_dict / load paths, or grown by commits) must return, bit for bit, what
+    a fresh manager returns for the same history."""
+    reps = 6 if tier == "quick" else 60
+    for t in range(reps):
+        hs = [gen_history(rng, rng.randint(1, 5), 6, 30.0, 5.0) for _ in range(3)]
+        one = build_state(*hs[0])
+        one.compute_logw_and_logz(rng.random())
+        for j, h in enumerate(hs[1:], 1):
+            fresh = build_state(*h)
+            one.update_from_dict(fresh.to_dict())
+            b = rng.choice([0.0, 1.0, rng.random()])
+            got, want = one.compute_logw_and_logz(b), fresh.compute_logw_and_logz(b)
+            run.case(key=("reuse", t, j), nontrivial=True)
+            if not (np.array_equal(got[0], want[0], equal_nan=True) and (got[1] == want[1] or (np.isnan(got[1]) and np.isnan(want[1])))):
+                run.fail("weights-depend-on-earlier-history", "a manager whose history was replaced returns other weights than a fresh "
+                         f"manager holding the same history (logz {got[1]!r} vs {want[1]!r})", histories=[dict(betas=x[0], sizes=[len(q) for q in x[2]]) for x in hs[:j + 1]],
+                         beta=b)
+                break
+        # growth by commits with a computation after every commit
+        betas, logzs, batches = gen_history(rng, rng.randint(2, 5), 6, 30.0, 5.0)
+        grown = build_state(betas[:1], logzs[:1], batches[:1])
+        for k in range(2, len(betas) + 1):
+            grown.compute_logw_and_logz(1.0)
+            n = len(batches[k - 1])
+            grown.update_current({"u": np.zeros((n, 1)), "x": np.zeros((n, 1)), "logl": np.array(batches[k - 1], dtype=float),
+                                  "beta": float(betas[k - 1]), "logz": float(logzs[k - 1]), "iter": 0})
+            grown.commit_current_to_history()
+            got, want = grown.compute_logw_and_logz(1.0), build_state(betas[:k], logzs[:k], batches[:k]).compute_logw_and_logz(1.0)
+            if not np.array_equal(got[0], want[0], equal_nan=True):
+                run.fail("weights-depend-on-earlier-history", "a manager grown by commits (with a computation after each) disagrees with a fresh one",
+                         betas=betas[:k], sizes=[len(q) for q in batches[:k]])
+                break
+
+
 def main(tier, seed):
     run = Run(PID, tier, seed)
     run.rule = ("histories with T in 1..6 iterations, unequal batch sizes 1..7, beta_t in [0,1] in any order (incl. 0 and 1), "
@@ -305,6 +341,7 @@ def main(tier, seed):
     try:
         check_against_reference(run, tier, rng)
         correspond_interval(run, tier, rng)
+        reuse_probe(run, tier, rng)
     except Exception:
         import traceback
         run.broken.append(("harness-exception", traceback.format_exc()[-1500:]))
